@@ -765,6 +765,87 @@ def r_bitfield_unit(P, rep):
         rep.undecided('R04.11', 'parse.c:struct_decl:unit-fit', 'the struct layout step could not be summarised for bit-field members (see C08 R08.3)')
 
 
+def r_single_eval(P, rep):
+    """R04.6: the lvalue operand of op= / ++ / -- designates ONE object: it is evaluated once (C11 6.5.16.2p3, 6.5.2.4p2). The clause is decided by
+    C03's R03.10 (every operand tree a lowering got is linked at most once into the tree it returns); its obligations for the lowerings of compound
+    assignment and increment are re-issued here. Only those lowerings are explored (the whole of R03.10 takes ~10 s)."""
+    from ..report import Report, reissue
+    from . import c03
+    rep.rule('R04.6', 'single evaluation of the lvalue of a compound assignment / increment: the tree to_assign(), new_inc_dec() and assign() return links the operand that designates the object '
+                      'at most once (A op= B becomes tmp = &A, *tmp = *tmp op B); an operand reachable twice is evaluated twice and the store may go to another object than the load (shared with C03 R03.10)', floor=3)
+    FNS = ('to_assign', 'new_inc_dec', 'assign')
+    sub = Report('C03')
+    pu = P.unit('parse.c')
+    for f in FNS:
+        if f not in pu.functions:
+            rep.undecided('R04.6', 'parse.c:%s' % f, '%s vanished' % f); return
+    try:
+        lowering_paths, links, plain_of, pure = c03.lowering_paths, c03._operand_links, c03._plain_constructors, c03.PURE_LEAVES
+    except AttributeError:
+        lowering_paths = None
+    if lowering_paths is None:
+        # the helpers of C03 were renamed: run the whole rule (slower, same obligations)
+        try:
+            if hasattr(c03, 'r03a'):
+                c03.r03a(P, sub)
+            else:
+                c03.run(P, sub, 'quick')
+        except Exception as e:
+            rep.undecided('R04.6', 'parse.c:to_assign:tree', 'C03 R03.10 could not be run: %s' % e); return
+    else:
+        import re as _re
+        NK = {v: k for k, v in pu.enums.items() if k.startswith('ND_')}
+        plain = plain_of(pu)
+        sub.rule('R03.10', '', 1)
+        for fname in FNS:
+            where = 'parse.c:%d' % pu.fn(fname).line
+            try:
+                it, paths = lowering_paths(P, pu, fname, plain)
+            except AnalysisBroken as e:
+                sub.undecided('R03.10', 'parse.c:%s:tree' % fname, 'the lowering is not interpretable: %s' % e, where=where); continue
+            n = 0
+            for ctx, root, consumed in paths:
+                it.ctx = ctx
+                count, names, kinds, cut = links(it, root, consumed, NK)
+                if cut:
+                    sub.undecided('R03.10', 'parse.c:%s:tree' % fname, 'the built tree is too large to walk', where=where); continue
+                n += 1
+                shared = [i for i, c in count.items() if c > 1 and not (kinds.get(i) and kinds[i] <= set(pure))]
+                what = sorted(set(_re.sub(r'#\d+', '', names[i]) for i in shared))
+                sub.ob('R03.10', 'parse.c:%s:operands-linked-once' % fname, not shared,
+                       '%s() returns a tree in which the operand %s is reachable along %d links: the code generator evaluates it once per link, so its side effects happen more than once and the '
+                       'object read and the object written may differ' % (fname, ', '.join(what), max([count[i] for i in shared] or [0])), where=where, facts={'path': ctx.trail[-8:]})
+            if n == 0:
+                sub.undecided('R03.10', 'parse.c:%s:tree' % fname, 'no returning path builds a tree', where=where)
+    keys = tuple('R03.10:parse.c:%s:' % f for f in FNS)
+    n = reissue(rep, 'R04.6', sub, 'the lvalue of op= / ++ / -- is evaluated more than once: ', keep=lambda o: o['key'].startswith(keys))
+    if n == 0:
+        rep.undecided('R04.6', 'parse.c:to_assign:tree', 'C03 R03.10 produced no obligation for the lowerings of compound assignment')
+
+
+def r_alignas_reaches_object(P, rep):
+    """R04.18: an object lives at an address that satisfies its DECLARED alignment: the _Alignas of a declaration must reach the object (Obj.align /
+    Member.align) at every declaration site - locals, static locals, globals, members - because frame layout (R04.5), .data emission and struct
+    layout place the object by that field. Decided by C08 R08.4 (alignas/*); re-issued here."""
+    from ..report import Report, reissue
+    from . import c08
+    rep.rule('R04.18', 'declared alignment reaches the object: at every declaration site (local, static local, global, member, anonymous member) an _Alignas specifier ends up in the align field the '
+                       'layout code places the object by, and without a specifier the type\'s alignment does (shared with C08 R08.4)', floor=8)
+    sub = Report('C08')
+    try:
+        if hasattr(c08, 'r084'):
+            c08.r084(P, P.unit('parse.c'), sub)
+        else:
+            c08.run(P, sub, 'quick')
+    except AnalysisBroken as e:
+        rep.undecided('R04.18', 'parse.c:declaration:alignas', 'C08 R08.4 could not be run: %s' % e); return
+    except Exception as e:
+        rep.undecided('R04.18', 'parse.c:declaration:alignas', 'C08 R08.4 could not be run: %s' % e); return
+    n = reissue(rep, 'R04.18', sub, 'the object is placed by an alignment other than the declared one: ', keep=lambda o: o['key'].startswith('R08.4:') and ':alignas' in o['key'])
+    if n == 0:
+        rep.undecided('R04.18', 'parse.c:declaration:alignas', 'C08 R08.4 produced no alignas obligation')
+
+
 def run(P, rep, tier):
     cg = wrap(CG(P))
     rep.explanation = ('Address/width/mask arithmetic of every lvalue form, decided as formulas: the code generator is abstractly interpreted on abstract nodes whose layout fields '
@@ -795,3 +876,13 @@ def run(P, rep, tier):
     from ..lib_c04 import r_vla_object
     rep.rule('R04.15', 'a declared VLA object designates a block of exactly the run-time size of its type: the declaration computes the size variable first, allocates that many bytes and stores the block address in the hidden pointer of the new variable', floor=2)
     r_vla_object(P, rep, 'R04.15')
+    r_single_eval(P, rep)
+    from ..lib_c04_sites import r_site_objects, r_lvar_registered, r_frame_twins
+    rep.rule('R04.17', 'the hidden object of a lowering belongs to one site: the object attached to a tree (Node.ret_buffer of an aggregate-valued call, Node.var of the temporaries of op= / ?: / compound '
+                       'literals, Type.vla_size) is created by that evaluation of the lowering, named by the program (scope lookup) or handed in - never a frame object taken from the parser\'s persistent '
+                       'state (list of locals, static/global cache, lazily filled field); Node.ret_buffer is always a new frame object; new_lvar() registers every object it creates and the frame gives '
+                       'look-alike hidden objects (same empty name, same Type) disjoint homes', floor=12)
+    r_site_objects(P, rep, 'R04.17')
+    r_lvar_registered(P, rep, 'R04.17')
+    r_frame_twins(cg, P, rep, 'R04.17')
+    r_alignas_reaches_object(P, rep)
